@@ -62,10 +62,13 @@ def calculate_expected_overflow(overflow_byte_size, page_size):
     last_overflow_page_content_size = overflow_byte_size
 
     if overflow_byte_size > 0:
-        while overflow_byte_size > 0:
-            overflow_pages += 1
-            last_overflow_page_content_size = overflow_byte_size
-            overflow_byte_size = overflow_byte_size - page_size + OVERFLOW_HEADER_LENGTH
+        # Closed form of filling one overflow page after another (the time must not depend on the payload size
+        # since a damaged payload size can be astronomically large)
+        overflow_page_content_size = page_size - OVERFLOW_HEADER_LENGTH
+        overflow_pages = -(-overflow_byte_size // overflow_page_content_size)
+        last_overflow_page_content_size = (
+            overflow_byte_size - (overflow_pages - 1) * overflow_page_content_size
+        )
 
     return overflow_pages, last_overflow_page_content_size
 
